@@ -9,7 +9,10 @@ Firsts == {"connect_valid", "connect_unknown_object", "connect_bad_payload", "co
            "garbage", "bad_version", "bad_magic", "oversized", "truncated", "empty",
            \* something that is not this protocol at all and shorter than a header (an HTTP request line, another version's tag);
            \* the peer stays connected and waits for an answer
-           "short_foreign"}
+           "short_foreign",
+           \* the header of a message of another type that announces a body which does not follow (in full); the peer closes
+           \* its sending side and waits for the answer
+           "type_partial"}
 \* return:lock - the validator accepts but hands back something no serializer can encode: the handshake cannot be completed
 Validators == {"accept", "return:None", "return:False", "return:0", "return:list", "return:lock", "raise:ValueError", "raise:KeyError",
                "raise:SecurityError", "raise:ConnectionClosedError", "raise:PyroError", "raise:TimeoutError",
@@ -21,7 +24,7 @@ Returns(v) == v = "accept" \/ SubSeq(v, 1, 7) = "return:"
 DefinedTypes == {"type_invoke", "type_result", "type_ping", "type_connectok", "type_connectfail"}
 Accept(f, v) == f = "connect_valid" /\ Returns(v) /\ v # "return:lock"
 \* the validator is consulted for a decodable CONNECT payload only
-MustReason(f, v) == \/ f \in DefinedTypes
+MustReason(f, v) == \/ f \in DefinedTypes \cup {"type_partial"}
                     \/ f = "connect_unknown_serializer"       \* (the refusal cannot be written in the peer's serializer; any other will do)
                     \/ f \in {"connect_valid", "connect_unknown_object"} /\ ~Returns(v) /\ v \notin NoMessage      \* (whatever the validator raises, also one of Pyro's own connection errors)
                     \/ f = "connect_unknown_object" /\ Returns(v)
